@@ -32,6 +32,11 @@ pub enum BEv {
     Optimize(Vec<RootSel>),
     CloneHeld(usize),
     HostAdd(Val),
+    /// the host builds a pair (one selector repeated = a shared sub-value) or a list out of values it
+    /// already holds: new values referencing old addresses
+    HostShare(Vec<usize>),
+    /// clone_data of a value that is also on a stack (operand i, or the current `$` when None)
+    CloneStack(Option<usize>),
 }
 
 #[derive(Clone, Debug, Serialize, Deserialize)]
@@ -143,7 +148,8 @@ impl Campaign for C19 {
             keys = cfg.keys.clone();
             let mut g = Gen::new(rng, cfg);
             let p = if g.rng.chance(1, 4) { g.counted_loop(budget.max(8)) } else { g.program() };
-            programs.push(p.top());
+            let printed = g.print(&p);
+            programs.push(printed);
         }
         let retained = if rng.chance(4, 5) { nprog } else { rng.range(1, nprog) };
         let run_program = rng.below(retained);
@@ -177,6 +183,13 @@ impl Campaign for C19 {
             }
             if rng.chance(1, 10) {
                 evs.push(BEv::CloneHeld(rng.below(6)));
+            }
+            if rng.chance(1, 12) {
+                let n = rng.range(2, 4);
+                evs.push(BEv::HostShare((0..n).map(|_| rng.below(4)).collect()));
+            }
+            if rng.chance(1, 14) {
+                evs.push(BEv::CloneStack(if rng.chance(1, 2) { None } else { Some(rng.below(4)) }));
             }
             let opt = match cadence {
                 0 => false,
@@ -246,6 +259,12 @@ impl Campaign for C19 {
                 }
             }
         }
+        // shrink the program that runs, textually
+        for cand in crate::c06::shrink_source(&sc.programs[sc.run_program]) {
+            let mut c = sc.clone();
+            c.programs[sc.run_program] = cand;
+            out.push(c);
+        }
         // drop programs that are not run
         if sc.programs.len() > 1 {
             for i in 0..sc.programs.len() {
@@ -308,8 +327,9 @@ impl Campaign for C19 {
             for e in b {
                 s.push_str(match e {
                     BEv::Optimize(_) => " optimize",
-                    BEv::CloneHeld(_) => " clone_data",
+                    BEv::CloneHeld(_) | BEv::CloneStack(_) => " clone_data",
                     BEv::HostAdd(_) => " host_add",
+                    BEv::HostShare(_) => " host_share",
                 });
             }
         }
@@ -502,12 +522,75 @@ pub fn execute(sc: &Sc19) -> Outcome {
                         }
                     }
                 }
-                BEv::CloneHeld(i) => {
-                    if held.is_empty() {
+                BEv::HostShare(sels) => {
+                    if held.is_empty() || sels.len() < 2 {
                         continue;
                     }
+                    sh.str("share");
+                    let picks: Vec<(usize, Val)> = sels.iter().map(|s| held[s % held.len()].clone()).collect();
+                    if picks.iter().map(|p| p.1.size()).sum::<usize>() > 400 {
+                        continue;
+                    }
+                    let r = if picks.len() == 2 {
+                        a.add_pair((picks[0].0, picks[1].0)).map(|addr| (addr, Val::pair(picks[0].1.clone(), picks[1].1.clone())))
+                    } else {
+                        (|| {
+                            let mut l = a.start_list(picks.len())?;
+                            for p in &picks {
+                                l = a.add_to_list(l, p.0)?;
+                            }
+                            let addr = a.end_list(l)?;
+                            Ok((addr, Val::List(picks.iter().map(|p| p.1.clone()).collect())))
+                        })()
+                    };
+                    match r {
+                        Ok((addr, v)) => {
+                            let got = read_val(&a, addr);
+                            if got != v {
+                                out.violate("C19.harness.host-share-readback", format!("expected {} read {}", v.short(), got.short()));
+                                break 'run;
+                            }
+                            held.push((addr, v));
+                            out.count("host_share", 1);
+                            out.probe("value-with-shared-sub-values-held");
+                        }
+                        Err(_) => {
+                            out.count("f1_store_full_fired", 1);
+                            break 'run;
+                        }
+                    }
+                }
+                BEv::CloneHeld(_) | BEv::CloneStack(_) => {
+                    let (addr, expect) = match &ev {
+                        BEv::CloneHeld(i) => {
+                            if held.is_empty() {
+                                continue;
+                            }
+                            held[i % held.len()].clone()
+                        }
+                        BEv::CloneStack(sel) => {
+                            let addr = match sel {
+                                None => a.get_current_value(),
+                                Some(i) => {
+                                    let ops = a.operands();
+                                    if ops.is_empty() {
+                                        None
+                                    } else {
+                                        Some(ops[i % ops.len()])
+                                    }
+                                }
+                            };
+                            let Some(addr) = addr else { continue };
+                            let v = read_val(&a, addr);
+                            if v.is_bad() {
+                                continue;
+                            }
+                            out.probe("clone-of-value-on-a-stack");
+                            (addr, v)
+                        }
+                        _ => unreachable!(),
+                    };
                     sh.str("clone");
-                    let (addr, expect) = held[i % held.len()].clone();
                     let before = snapshot(&a, &symbols, &const_addrs);
                     let r = guarded(|| a.clone_data(addr));
                     match r {
